@@ -65,6 +65,7 @@ def jobs(tier, seed):
     out.append({"name": "copy-number-validation", "kind": "cnv", "cost": 1})
     out.append({"name": "grid-and-clusters", "kind": "grid", "cost": 10})
     out.append({"name": "loader-table-to-data-points", "kind": "loader", "cost": 20})
+    out.append({"name": "load_data-cluster-files", "kind": "loadfile", "cost": 5})
     base = {"kind": "pmf", "major": 2, "minor": 1, "normal": 2, "maxdepth": 2}
     out.append({"name": "canary-variant_population_weight", "canary": "variant_population_weight", **base, "density": "binomial", "cost": 5})
     out.append({"name": "canary-beta_binomial_b_parameter", "canary": "beta_binomial_b_parameter", **base, "density": "beta-binomial", "cost": 5})
@@ -318,6 +319,74 @@ def _work_loader(res):
     return funcs
 
 
+def loadfile_problems():
+    """Concrete part (pandas reads real files, nothing symbolic can cross): load_data with a two-column and a long-format
+    (per-sample rows, extra columns - as PyClone-VI writes it) cluster file; cluster grids must be the sums of the members'
+    unclustered grids and the outlier terms size * log p, size * log(1-p).  Runs in an unpatched interpreter."""
+    import os
+    import tempfile
+    import numpy as np
+    from phyclone.data.pyclone import load_data
+    muts = {"m1": (7, 1), "m2": (9, 1), "m3": (7, 1), "m4": (9, 2), "m5": (7, 0)}     # mutation -> (cluster, major offset)
+    samples = ["sA", "sB"]
+    rows = ["\t".join(["mutation_id", "sample_id", "ref_counts", "alt_counts", "major_cn", "minor_cn", "normal_cn", "tumour_content", "error_rate"])]
+    k = 0
+    for m, (cl, off) in muts.items():
+        for smp in samples:
+            k += 1
+            rows.append("\t".join(map(str, [m, smp, 20 + 3 * k, 5 + k, 1 + off, 1 if off else 0, 2, 0.8 if smp == "sA" else 0.6, 0.001 * (1 + k % 3)])))
+    problems = []
+    p = 0.01
+    with tempfile.TemporaryDirectory() as td:
+        data_file = os.path.join(td, "in.tsv")
+        open(data_file, "w").write("\n".join(rows) + "\n")
+        two_col = os.path.join(td, "cl2.tsv")
+        open(two_col, "w").write("mutation_id\tcluster_id\n" + "".join(f"{m}\t{cl}\n" for m, (cl, _) in muts.items()))
+        long_fmt = os.path.join(td, "cllong.tsv")
+        open(long_fmt, "w").write("mutation_id\tsample_id\tcluster_id\tcellular_prevalence\n" +
+                                  "".join(f"{m}\t{smp}\t{cl}\t{0.1 * (i + 1)}\n" for m, (cl, _) in muts.items() for i, smp in enumerate(samples)))
+        rng = np.random.default_rng(0)
+        for density in ("binomial", "beta-binomial"):
+            single, smp = load_data(data_file, rng, 0.0001, 0.4, False, cluster_file=None, density=density, grid_size=5, outlier_prob=p, precision=400)
+            if smp != samples or [d.name for d in single] != sorted(muts):
+                problems.append(f"unclustered order {smp} {[d.name for d in single]}")
+            by_name = {d.name: d for d in single}
+            for d in single:
+                if abs(d.outlier_prob - np.log(p)) > 1e-12 or abs(d.outlier_prob_not - np.log1p(-p)) > 1e-12:
+                    problems.append(f"unclustered outlier terms of {d.name}")
+            for label, cf in (("two-column", two_col), ("long-format", long_fmt)):
+                data, _ = load_data(data_file, rng, 0.0001, 0.4, False, cluster_file=cf, density=density, grid_size=5, outlier_prob=p, precision=400)
+                if [d.name for d in data] != ["7", "9"] or [d.idx for d in data] != [0, 1]:
+                    problems.append(f"{label}: cluster order {[d.name for d in data]}")
+                    continue
+                for d, cl in zip(data, (7, 9)):
+                    members = [m for m, (c, _) in muts.items() if c == cl]
+                    want = sum(by_name[m].value for m in members)
+                    if np.abs(d.value - want).max() > 1e-9:
+                        problems.append(f"{label} {density}: grid of cluster {cl} is not the sum of its members'")
+                    if abs(d.outlier_prob - len(members) * np.log(p)) > 1e-9 or abs(d.outlier_prob_not - len(members) * np.log1p(-p)) > 1e-9:
+                        problems.append(f"{label} {density}: outlier terms of cluster {cl} are {d.outlier_prob:.4f}, {d.outlier_prob_not:.4f}; size {len(members)}")
+    return problems
+
+
+def _work_loadfile(res):
+    import json, os, subprocess, sys
+    root = os.path.dirname(os.path.dirname(os.path.abspath(__file__)))
+    code = "import sys, json; sys.path.insert(0, %r); import checks.c05 as m; print(json.dumps(m.loadfile_problems()))" % root
+    pr = subprocess.run([sys.executable, "-c", code], cwd=root, capture_output=True, text=True, timeout=1800)
+    if pr.returncode != 0:
+        raise Inconclusive("load_data part failed to run: " + pr.stderr[-800:])
+    problems = json.loads(pr.stdout.strip().splitlines()[-1])
+    res["obligations"] += 1
+    res["paths_total"] += 1
+    if problems:
+        res["cex"].append({"kind": "load_data-clusters", "detail": problems[:3], "values": {}})
+    else:
+        res["discharged"] += 1
+    res["sample"] = {"load_data": "5 mutations x 2 samples from real TSV files, two-column and long-format cluster files, both densities (concrete)"}
+    return ["phyclone.data.pyclone:load_data", "phyclone.data.pyclone:_setup_cluster_df", "phyclone.data.pyclone:_create_clustered_data_arr"]
+
+
 def work(job):
     res = {"obligations": 0, "discharged": 0, "cex": [], "nontrivial": True, "paths_total": 0}
     CTX.new_session()
@@ -329,6 +398,8 @@ def work(job):
             funcs = _work_cnv(res)
         elif job["kind"] == "loader":
             funcs = _work_loader(res)
+        elif job["kind"] == "loadfile":
+            funcs = _work_loadfile(res)
         else:
             funcs = _work_grid(res)
     finally:
@@ -379,6 +450,9 @@ def replay(case):
                 tot += got
             worst = max(worst, abs(tot - 1.0))
         return worst > 1e-9, {"max_abs_diff": worst}
+    if job["kind"] == "loadfile":
+        pr = loadfile_problems()
+        return bool(pr), pr[:3]
     if job["kind"] == "loader":
         import pandas as pd
         spec_rows = [("mB", "s2", 1, 2, 2, 1, 2), ("mA", "s1", 2, 1, 2, 1, 2), ("mB", "s1", 0, 3, 2, 1, 2), ("mA", "s2", 1, 1, 2, 1, 2)]
